@@ -313,6 +313,38 @@ theorem offset_moves_sides (r : Rect) (n : Int)
     simp only [h0, if_false, withCenter, center, centerOffset, Sz.satSub, Sz.newEqual]
     omega
 
+/-- The two axes are independent: `offset(n)` moves the left and right side by `n` whenever the resulting WIDTH
+is positive (and, for `n < 0`, the width was positive), whatever happens on the other axis - e.g.
+`(5,5) 10x1 .offset(-1)` collapses vertically but still becomes 8 wide starting at x = 6. -/
+theorem offset_moves_sides_x (r : Rect) (n : Int)
+    (hr : 0 ≤ n ∨ 0 < r.size.w) (hn : 0 < (r.size.w : Int) + 2 * n) (hb : (r.size.w : Int) + 2 * n ≤ 4294967295) :
+    (r.offset n).tl.x = r.tl.x - n ∧ ((r.offset n).size.w : Int) = r.size.w + 2 * n := by
+  unfold offset
+  by_cases h0 : n ≥ 0
+  · simp only [h0, if_true, Sz.satAdd, Sz.newEqual, satAddU32, Pt.sub_x]
+    have h1 : r.size.w + n.toNat * 2 ≤ 4294967295 := by omega
+    simp only [h1, ↓reduceIte]
+    exact ⟨trivial, by omega⟩
+  · have hr' : 0 < r.size.w := by rcases hr with h | h; exact absurd h h0; exact h
+    simp only [h0, if_false, withCenter, center, centerOffset, Sz.satSub, Sz.newEqual]
+    omega
+
+/-- The same for the top and bottom side. -/
+theorem offset_moves_sides_y (r : Rect) (n : Int)
+    (hr : 0 ≤ n ∨ 0 < r.size.h) (hn : 0 < (r.size.h : Int) + 2 * n) (hb : (r.size.h : Int) + 2 * n ≤ 4294967295) :
+    (r.offset n).tl.y = r.tl.y - n ∧ ((r.offset n).size.h : Int) = r.size.h + 2 * n := by
+  unfold offset
+  by_cases h0 : n ≥ 0
+  · simp only [h0, if_true, Sz.satAdd, Sz.newEqual, satAddU32, Pt.sub_y]
+    have h1 : r.size.h + n.toNat * 2 ≤ 4294967295 := by omega
+    simp only [h1, ↓reduceIte]
+    exact ⟨trivial, by omega⟩
+  · have hr' : 0 < r.size.h := by rcases hr with h | h; exact absurd h h0; exact h
+    simp only [h0, if_false, withCenter, center, centerOffset, Sz.satSub, Sz.newEqual]
+    omega
+
+example : (⟨⟨5, 5⟩, ⟨10, 1⟩⟩ : Rect).offset (-1) = ⟨⟨6, 5⟩, ⟨8, 0⟩⟩ := by decide
+
 /-- A negative offset larger than the rectangle collapses it to zero size along that axis
 (saturating), it never wraps. (Definitional: unfolds the model's `saturating_sub`, `Nat` subtraction;
 it says nothing about where the collapsed rectangle sits. The content about `offset` is
